@@ -306,6 +306,14 @@ func Run(c *core.Ctx) {
 	c.Set("rule", "every edge of three exported TLC state graphs is executed on the real adapter: (1) sniffer: streams of 5-6 position-tagged bytes, every source chunking, caller buffers 1..3(4), 1-3 sniffing sessions with arbitrary peek depth, then reads to EOF; (2) websocket transport: every fragmentation into <= 3 text/binary messages incl. empty ones and control messages, read buffers 1..3(4), EOF with or without data, writes of 0..2 bytes; (3) listener.Conn write queue with one writer (3 packets of 3..70000 bytes), every limiter outcome and every flush timing at gate granularity; every walk counts as non-trivial (each covers edges no other walk covered)")
 	c.Assume = append(c.Assume, "the underlying socket returns io.EOF separately from the last data (net.TCPConn behaviour); a source that returns data together with EOF is outside the explored chunkings",
 		"bytes are position-tagged so duplication, loss and reordering are all visible")
+	// bulk: the write queue holding 0.3 / 1.2 / 4 / 13 MB of rate-limited writes before anything is flushed
+	var bulk []*core.Trace
+	for i, q := range [][2]int{{5, 60000}, {20, 60000}, {64, 65000}, {200, 65000}, {250, 5000}} { // (packet numbers are one byte)
+		bulk = append(bulk, wq.Bulk(q[0], q[1], fmt.Sprintf("bulk-%d", i)))
+	}
+	c.Add("evaluations", int64(len(bulk)))
+	rej = c.ValidateTraces(bulk, core.ValidateOpts{Module: "WriteQueue_Stress", Cfg: "INIT TraceInit\nNEXT TraceNext\nCONSTRAINT MarkC\nPOSTCONDITION AllConsumed\nCHECK_DEADLOCK FALSE\n", ChunkSize: 4})
+	c.ReportRejections(rej, "with megabytes of rate-limited writes queued, the client did not receive exactly the bytes written")
 	ListenerStage(c)
 	c.Finish()
 }
